@@ -252,7 +252,8 @@ pub fn run(rep: &Report) {
         let (codes, variant) = &programs[i];
         let p = enum_program(codes, *variant);
         let text = p.render_plain().text;
-        let cli = i % (if t { 40 } else { 97 }) == 0;
+        // labels at the very end of the program (variant 2) index the driver's appended hlt: always through the real driver
+        let cli = *variant == 2 || i % (if t { 7 } else { 13 }) == 0;
         check_program(rep, &p, &text, Some(format!("enum{:?}v{}", codes, variant)), cli, "enumerated");
         if i == 57 {
             rep.sample(format!("enumerated program {:?} variant {}: {:?}", codes, variant, text));
@@ -269,7 +270,7 @@ pub fn run(rep: &Report) {
         let mut sp = Spell::random(rng.fork(1));
         let lay = Layout { trailing_newline: i % 2 == 0, filler_pct: 20, pack_pct: if i % 4 == 0 { 20 } else { 0 }, comments: false };
         let text = p.render(&mut sp, &lay).text;
-        let cli = i % (if t { 15 } else { 12 }) == 0;
+        let cli = i % (if t { 6 } else { 5 }) == 0;
         check_program(rep, &p, &text, if core { Some(format!("rnd{}", i)) } else { None }, cli, "random");
         if i == 3 {
             rep.sample(format!("structured program: {:?}", text));
